@@ -8,8 +8,8 @@ BOUNDS = {
              "min/max_volume, worklist max_volume > 0, volume arguments >= 0); both devices; plate 2x2 and trough 3 virtual rows x 2 columns on "
              "either side, plus same-labware transfers; k<=2 wells/triples chosen from 4 candidate ids (repeats allowed); <=3 split steps (k=1) / "
              "<=2 (k=2); partition_by auto/source/destination; wash 1/'reuse'; scalar and per-well volume arguments; distribute to 1-3 wells",
-    "thorough": "as quick, plus geometries plate 3x2 / 8x2 / 1x1 and troughs 1x1 / 8x1, <=4 split steps for k=1, <=3 for k=2, wash schemes 1,3,'flush','reuse', "
-                "composition agreement for k=2 transfers",
+    "thorough": "as quick, plus geometries plate 3x2 / 8x2 / 1x1 and troughs 1x1 / 8x1, <=4 split steps for k=1, 4 candidate wells per slot for k=2 with all "
+                "partition modes, wash schemes 1,3,'flush','reuse', composition agreement for k=2 transfers without splitting incl. chained same-labware transfers",
 }
 OUTSIDE = "k>2 per call, more split steps than stated, other geometries, float rounding of the twin itself (Real arithmetic), sequences of >1 operation (covered inductively: the pre-state is arbitrary)"
 ASSUMPTIONS = [
@@ -21,25 +21,31 @@ ASSUMPTIONS = [
 
 def shards(tier):
     out = []
-    geos = [("p2x2", "p2x2"), ("p2x2", "t3x2"), ("t3x2", "p2x2"), ("t3x2", "t3x2")]
-    if tier == "thorough":
-        geos += [("p3x2", "p8x2"), ("t8x1", "p8x2"), ("p1x1", "t1x1"), ("t1x1", "p1x1"), ("p8x2", "t8x1")]
+    base = [("p2x2", "p2x2"), ("p2x2", "t3x2"), ("t3x2", "p2x2"), ("t3x2", "t3x2")]
+    extra = [("p3x2", "p8x2"), ("t8x1", "p8x2"), ("p1x1", "t1x1"), ("t1x1", "p1x1"), ("p8x2", "t8x1")] if tier == "thorough" else []
     for dev in ("evo", "fluent"):
-        for sg, dg in geos:
+        for sg, dg in base + extra:
+            is_base = (sg, dg) in base
             for op in ("aspirate", "dispense"):
                 out.append(dict(dev=dev, op=op, sgeo=sg, dgeo=dg, k=2, steps=1))
             if sg.startswith("t"):
                 out.append(dict(dev=dev, op="distribute", sgeo=sg, dgeo=dg, k=1, steps=1, comp=True))
-            for pb in ("auto", "source", "destination"):
+            for pb in (("auto", "source", "destination") if is_base else ("auto",)):
                 out.append(dict(dev=dev, op="transfer", sgeo=sg, dgeo=dg, k=1, steps=3 if tier == "quick" else 4, partition_by=pb, comp=True,
                                 washes=[1, "reuse"] if tier == "quick" else [1, 3, "flush", "reuse"]))
-            for pb in (("auto",) if tier == "quick" else ("auto", "source", "destination")):
-                out.append(dict(dev=dev, op="transfer", sgeo=sg, dgeo=dg, k=2, steps=2 if tier == "quick" else 3, partition_by=pb,
-                                washes=[1] if tier == "quick" else [1, "reuse"], comp=(tier == "thorough"), ncand=2 if tier == "quick" else 4))
+            if tier == "quick":
+                out.append(dict(dev=dev, op="transfer", sgeo=sg, dgeo=dg, k=2, steps=2, partition_by="auto", washes=[1], comp=False, ncand=2))
+            else:
+                for pb in (("auto", "source", "destination") if is_base else ("auto",)):
+                    out.append(dict(dev=dev, op="transfer", sgeo=sg, dgeo=dg, k=2, steps=2, partition_by=pb, washes=[1], comp=False, ncand=4 if is_base else 2))
+                if is_base:
+                    out.append(dict(dev=dev, op="transfer", sgeo=sg, dgeo=dg, k=2, steps=1, partition_by="auto", washes=[1], comp=True, ncand=2, wl_max=common.BIG * 2))
         for sg in ("p2x2", "t3x2"):
             out.append(dict(dev=dev, op="transfer", sgeo=sg, dgeo=sg, same=True, k=1, steps=3, partition_by="auto", comp=True))
             if tier == "thorough":
-                out.append(dict(dev=dev, op="transfer", sgeo=sg, dgeo=sg, same=True, k=2, steps=2, partition_by="auto"))
+                out.append(dict(dev=dev, op="transfer", sgeo=sg, dgeo=sg, same=True, k=2, steps=2, partition_by="auto", ncand=2))
+        if tier == "thorough":
+            out.append(dict(dev=dev, op="transfer", sgeo="p3x2", dgeo="p3x2", same=True, k=2, steps=1, partition_by="auto", washes=[1], cands=[[0, 1], [1, 2]], comp=True, wl_max=common.BIG * 2))
     return out
 
 
